@@ -5,20 +5,22 @@ open MosnVerif.Gen.ProxyPhase MosnVerif.Gen.ProxyReason MosnVerif.Gen.ProxyRetry
 
 theorem inv_poolFail (c : Cfg) (ar aq : Nat) (s : S) (f : PoolFail) (h : Inv c ar aq s) :
     Inv c ar aq { s with failNext := s.failNext ++ [f] } := by
-  obtain ⟨k0, k1, k2, k3, k4, k5, k6, k7, k8, k9, k10, k11, k12, k13, k14, k15, k16, k17, k18, k19, k20, k21⟩ := h
-  exact ⟨k0, k1, k2, k3, k4, k5, k6, k7, k8, k9, k10, k11, k12, k13, k14, k15, k16, k17, k18, k19, k20, k21⟩
+  obtain ⟨k0, k1, k2, k3, k4, k5, k6, k7, k8, k9, k10, k11, k12, k13, k14, k15, k16, k17, k18, k19, k20, k21, k22, k23, k24, k25, k26, k27, k28, k29, k30, k31⟩ := h
+  exact ⟨k0, k1, k2, k3, k4, k5, k6, k7, k8, k9, k10, k11, k12, k13, k14, k15, k16, k17, k18, k19, k20, k21, k22, k23, k24, k25, k26, k27, k28, k29, k30, k31⟩
 
 theorem inv_hostsGone (c : Cfg) (ar aq : Nat) (s : S) (h : Inv c ar aq s) :
     Inv c ar aq { s with hostsGone := true } := by
-  obtain ⟨k0, k1, k2, k3, k4, k5, k6, k7, k8, k9, k10, k11, k12, k13, k14, k15, k16, k17, k18, k19, k20, k21⟩ := h
-  exact ⟨k0, k1, k2, k3, k4, k5, k6, k7, k8, k9, k10, k11, k12, k13, k14, k15, k16, k17, k18, k19, k20, k21⟩
+  obtain ⟨k0, k1, k2, k3, k4, k5, k6, k7, k8, k9, k10, k11, k12, k13, k14, k15, k16, k17, k18, k19, k20, k21, k22, k23, k24, k25, k26, k27, k28, k29, k30, k31⟩ := h
+  exact ⟨k0, k1, k2, k3, k4, k5, k6, k7, k8, k9, k10, k11, k12, k13, k14, k15, k16, k17, k18, k19, k20, k21, k22, k23, k24, k25, k26, k27, k28, k29, k30, k31⟩
 
 theorem inv_dsOnResetStream (c : Cfg) (ar aq : Nat) (s : S) (r : Reason) (dl : Bool)
     (h : Inv c ar aq s) : Inv c ar aq (dsOnResetStream { s with downLive := dl } r) := by
-  obtain ⟨k0, k1, k2, k3, k4, k5, k6, k7, k8, k9, k10, k11, k12, k13, k14, k15, k16, k17, k18, k19, k20, k21⟩ := h
-  refine ⟨k0, k1, k2, k3, k4, k5, ?_, k7, k8, k9, k10, k11, k12, k13, k14, k15, k16, k17, ?_, k19, k20, k21⟩
+  obtain ⟨k0, k1, k2, k3, k4, k5, k6, k7, k8, k9, k10, k11, k12, k13, k14, k15, k16, k17, k18, k19, k20, k21, k22, k23, k24, k25, k26, k27, k28, k29, k30, k31⟩ := h
+  refine ⟨k0, k1, k2, k3, k4, k5, ?_, k7, k8, k9, k10, k11, k12, k13, k14, k15, k16, k17, ?_, k19, k20, k21, k22, k23, k24, k25, k26, k27, ?_, k29, k30, k31⟩
   · simp [K6, dsOnResetStream]
   · simp only [K18, dsOnResetStream] at k18 ⊢
+    grind
+  · simp only [K28, dsOnResetStream] at k28 ⊢
     grind
 
 theorem inv_connClose (c : Cfg) (ar aq : Nat) (s : S) (h : Inv c ar aq s) : Inv c ar aq (connClose s) := by
@@ -87,21 +89,57 @@ theorem inv_reset_destroy (c : Cfg) (ar aq : Nat) (s : S) (k : Nat) (r : Reason)
     cases fire
     · exact ⟨h.k10, h.k11, h.k14⟩
     · exact ⟨h.k10, h.k11, h.k14⟩
-  have hd := (destroyStream_ledger c aq _ k hled).1
-  obtain ⟨k0, k1, k2, k3, k4, k5, k6, k7, k8, k9, k10, k11, k12, k13, k14, k15, k16, k17, k18, k19, k20, k21⟩ := h
+  have hlv : streamLive s k = true := streamLiveCounted_le s k hlc
+  have hdd := destroyStream_ledger c aq _ k hled
+  have hd := hdd.1
+  have hdead : allDead (destroyStream c (if fire then upOnResetStream s r else s) k).streams = true := by
+    apply hdd.2
+    cases fire
+    · exact hlv
+    · exact hlv
+  have h23 : K23 (destroyStream c (if fire then upOnResetStream s r else s) k) := fun _ _ => allDead_liveCount hdead
+  have h22 : K22 c (destroyStream c (if fire then upOnResetStream s r else s) k) := by
+    apply K22_destroyStream
+    cases fire
+    · exact h.k22
+    · exact h.k22
+  obtain ⟨k0, k1, k2, k3, k4, k5, k6, k7, k8, k9, k10, k11, k12, k13, k14, k15, k16, k17, k18, k19, k20, k21, k22, k23, k24, k25, k26, k27, k28, k29, k30, k31⟩ := h
+  have hnr : s.phase ≠ .Retry := by
+    intro hp
+    have := k23 hcl (Or.inr hp)
+    have := liveCounted_pos s k hlc
+    omega
+  have hlpos := liveCounted_pos s k hlc
+  have hn30 : ¬ (s.phase = .DownFilterAfterChooseHost ∨ s.phase = .DownRecvHeader) := by
+    intro hp
+    have := (k30 hcl hp).1
+    rw [this] at hlpos; simp at hlpos
+  have h30 : K30 (destroyStream c (if fire then upOnResetStream s r else s) k) := by
+    intro _ hp
+    cases fire
+    · exact absurd hp hn30
+    · exact absurd hp hn30
   cases fire
-  · refine ⟨k0, k1, k2, k3, k4, k5, k6, k7, k8, k9, hd.1, hd.2.1, k12, ?_, hd.2.2, ?_, k16, ?_, k18, k19, ?_, k21⟩
+  · refine ⟨k0, k1, k2, k3, k4, k5, k6, k7, k8, k9, hd.1, hd.2.1, k12, ?_, hd.2.2, ?_, k16, ?_, k18, k19, ?_, k21, h22, h23, k24, k25, k26, ?_, k28, k29, h30, k31⟩
     · intro hh; exact absurd hh (by simp [hcl])
     · intro _ hh; exact absurd hh (by simp [hup])
     · intro _ hh; exact absurd hh (by simp [hpre])
     · intro hh; exact absurd hh (by simp [how])
-  · refine ⟨k0, k1, k2, k3, k4, k5, k6, k7, k8, k9, hd.1, hd.2.1, k12, ?_, hd.2.2, ?_, k16, ?_, ?_, k19, ?_, k21⟩
+    · intro _ _ hu
+      have := k27 hcl hfwd hu
+      rcases this with h | ⟨_, h⟩
+      · left; exact h
+      · omega
+  · refine ⟨k0, k1, k2, k3, k4, k5, k6, k7, k8, k9, hd.1, hd.2.1, k12, ?_, hd.2.2, ?_, k16, ?_, ?_, k19, ?_, k21, h22, h23, k24, k25, ?_, ?_, ?_, k29, h30, k31⟩
     · intro hh; exact absurd hh (by simp [upOnResetStream, hcl])
     · intro _ hh; exact absurd hh (by simp [upOnResetStream, hup])
     · intro _ hh; exact absurd hh (by simp [upOnResetStream, hpre])
     · simp only [K18, upOnResetStream, destroyStream, ite_true] at k18 ⊢
       grind
     · intro hh; exact absurd hh (by simp [how])
+    · intro _ hp; exact absurd hp hnr
+    · intro _ _ _; left; simp [upOnResetStream, hsr]
+    · intro _ _ _; right; left; simp [upOnResetStream, hsr]
 
 theorem inv_upReset (c : Cfg) (ar aq : Nat) (s : S) (k : Nat) (r : Reason) (h : Inv c ar aq s) :
     Inv c ar aq (upResetL c s k r) := by
@@ -133,15 +171,42 @@ theorem inv_upResp (c : Cfg) (ar aq : Nat) (s : S) (k code : Nat) (d t : Bool) (
       obtain ⟨⟨hreal, hcounted⟩, hlive⟩ := hcond
       have hlc : streamLiveCounted s k = true := by simp [streamLiveCounted, hk, hlive, hcounted]
       obtain ⟨hcl, how, hfwd, hpre, hup, hsr⟩ := live_facts c ar aq s k h hlc
-      have hd := (destroyStream_ledger c aq s k ⟨h.k10, h.k11, h.k14⟩).1
-      obtain ⟨k0, k1, k2, k3, k4, k5, k6, k7, k8, k9, k10, k11, k12, k13, k14, k15, k16, k17, k18, k19, k20, k21⟩ := h
-      refine ⟨k0, k1, k2, k3, k4, k5, k6, k7, k8, k9, hd.1, hd.2.1, k12, ?_, hd.2.2, ?_, k16, ?_, ?_, k19, ?_, k21⟩
+      have hdd := destroyStream_ledger c aq s k ⟨h.k10, h.k11, h.k14⟩
+      have hd := hdd.1
+      have hdead := hdd.2 (streamLiveCounted_le s k hlc)
+      have h22 := K22_destroyStream c s k h.k22
+      obtain ⟨k0, k1, k2, k3, k4, k5, k6, k7, k8, k9, k10, k11, k12, k13, k14, k15, k16, k17, k18, k19, k20, k21, k22, k23, k24, k25, k26, k27, k28, k29, k30, k31⟩ := h
+      refine ⟨k0, k1, k2, k3, k4, k5, k6, k7, k8, k9, hd.1, hd.2.1, k12, ?_, hd.2.2, ?_, k16, ?_, ?_, k19, ?_, k21, h22,
+        fun _ _ => allDead_liveCount hdead, k24, k25, k26, ?_, ?_, k29, ?_, k31⟩
       · intro hh; exact absurd hh (by simp [hcl])
       · intro _ hh; exact absurd hh (by simp [hup])
       · intro _ hh; exact absurd hh (by simp [hpre])
       · simp only [K18, processDone, destroyStream] at k18 ⊢
         grind
       · intro hh; exact absurd hh (by simp [how])
+      · have hl0 := allDead_liveCount hdead
+        have hpos := liveCounted_pos s k hlc
+        have h27 := k27 hcl hfwd
+        intro _ _
+        simp only [processDone, Bool.or_eq_true, Bool.and_eq_true, Bool.not_eq_true']
+        intro hu
+        by_cases hur : s.upReset = true
+        · left; exact hur
+        · right
+          refine ⟨?_, hl0⟩
+          by_cases hsu : s.urr = true
+          · rcases h27 hsu with h | ⟨_, h⟩
+            · exact absurd h hur
+            · omega
+          · simp only [Bool.not_eq_true] at hsu hur
+            simp [hsu, hur] at hu ⊢
+            simp [hu.1, hsr]
+      · simp only [K28, processDone, destroyStream] at k28 ⊢
+        grind
+      · intro _ hp
+        have := (k30 hcl hp).1
+        have hpos := liveCounted_pos s k hlc
+        rw [this] at hpos; simp at hpos
 
 /-- facts available when a timer is armed and its callback wins the CAS -/
 theorem timer_facts (c : Cfg) (ar aq : Nat) (s : S) (h : Inv c ar aq s) (ht : s.perTry = true ∨ s.global = true)
@@ -182,22 +247,25 @@ theorem inv_perTryFire (c : Cfg) (ar aq : Nat) (s : S) (h : Inv c ar aq s) : Inv
       simp [this] at hpt
     · split
       · -- CAS lost
-        obtain ⟨k0, k1, k2, k3, k4, k5, k6, k7, k8, k9, k10, k11, k12, k13, k14, k15, k16, k17, k18, k19, k20, k21⟩ := h
-        refine ⟨k0, k1, k2, k3, k4, k5, k6, k7, k8, k9, k10, k11, k12, ?_, k14, ?_, k16, ?_, k18, k19, k20, ?_⟩
+        obtain ⟨k0, k1, k2, k3, k4, k5, k6, k7, k8, k9, k10, k11, k12, k13, k14, k15, k16, k17, k18, k19, k20, k21, k22, k23, k24, k25, k26, k27, k28, k29, k30, k31⟩ := h
+        refine ⟨k0, k1, k2, k3, k4, k5, k6, k7, k8, k9, k10, k11, k12, ?_, k14, ?_, k16, ?_, k18, k19, k20, ?_, k22, k23, k24, k25, ?_, k27, k28, k29, ?_, k31⟩
         · simp only [K13] at k13 ⊢; grind
         · simp only [K15] at k15 ⊢; grind
         · simp only [K17] at k17 ⊢; grind
         · simp only [K21] at k21 ⊢; grind
+        · simp only [K26] at k26 ⊢; grind
+        · simp only [K30] at k30 ⊢; grind
       · rename_i hurr
         simp only [Bool.not_eq_true] at hurr
         obtain ⟨hcl, how, hfwd, hpre, hup, hsr, hrs⟩ := timer_facts c ar aq s h (Or.inl hpt) hurr
         have hled := resetUpstream_ledger c aq { s with perTry := false, urr := true } ⟨h.k10, h.k11, h.k14⟩
         have h18 := h.k18 hcl hfwd
-        obtain ⟨k0, k1, k2, k3, k4, k5, k6, k7, k8, k9, k10, k11, k12, k13, k14, k15, k16, k17, k18, k19, k20, k21⟩ := h
+        obtain ⟨k0, k1, k2, k3, k4, k5, k6, k7, k8, k9, k10, k11, k12, k13, k14, k15, k16, k17, k18, k19, k20, k21, k22, k23, k24, k25, k26, k27, k28, k29, k30, k31⟩ := h
         split
         rotate_left
         · rename_i hh; simp [hrs] at hh
-        refine ⟨?_, ?_, ?_, ?_, ?_, ?_, ?_, ?_, ?_, ?_, hled.1.1, hled.1.2.1, ?_, ?_, hled.1.2.2, ?_, ?_, ?_, ?_, ?_, ?_, ?_⟩
+        refine ⟨?_, ?_, ?_, ?_, ?_, ?_, ?_, ?_, ?_, ?_, hled.1.1, hled.1.2.1, ?_, ?_, hled.1.2.2, ?_, ?_, ?_, ?_, ?_, ?_, ?_,
+          K22_resetUpstream c _ k22, fun _ _ => allDead_liveCount hled.2, ?_, ?_, ?_, ?_, ?_, ?_, ?_, ?_⟩
         · simpa [K0, upOnResetStream, orFlag] using k0
         · simpa [K1, upOnResetStream, orFlag] using k1
         · simpa [K2, upOnResetStream, orFlag] using k2
@@ -223,6 +291,18 @@ theorem inv_perTryFire (c : Cfg) (ar aq : Nat) (s : S) (h : Inv c ar aq s) : Inv
         · simpa [K19, upOnResetStream, orFlag] using k19
         · intro hh; exact absurd hh (by simp [how])
         · intro hh; exact absurd hh (by simp [how])
+        · simpa [K24, upOnResetStream, orFlag] using k24
+        · simpa [K25, upOnResetStream, orFlag] using k25
+        · intro _ hp
+          have := (k26 hcl (by simpa [upOnResetStream, orFlag] using hp)).1
+          simp [this] at hpt
+        · intro _ _ _; left; simp [upOnResetStream, orFlag, hsr]
+        · intro _ _ _; left; simp [upOnResetStream, orFlag]
+        · simpa [K29, upOnResetStream, orFlag] using k29
+        · intro _ hp
+          have := (k30 hcl (by simpa [upOnResetStream, orFlag] using hp)).2.2.1
+          rw [this] at hpt; cases hpt
+        · simpa [K31, upOnResetStream, orFlag] using k31
 
 theorem inv_globalFire (c : Cfg) (ar aq : Nat) (s : S) (h : Inv c ar aq s) : Inv c ar aq (globalFire c s) := by
   unfold globalFire
@@ -244,13 +324,18 @@ theorem inv_globalFire (c : Cfg) (ar aq : Nat) (s : S) (h : Inv c ar aq s) : Inv
         split
         · -- CAS lost: only the timer flag and the expiry record change
           rename_i hurr
-          obtain ⟨k0, k1, k2, k3, k4, k5, k6, k7, k8, k9, k10, k11, k12, k13, k14, k15, k16, k17, k18, k19, k20, k21⟩ := h
-          refine ⟨k0, k1, k2, k3, k4, k5, k6, k7, k8, k9, k10, k11, k12, ?_, k14, ?_, k16, ?_, ?_, k19, k20, ?_⟩
+          obtain ⟨k0, k1, k2, k3, k4, k5, k6, k7, k8, k9, k10, k11, k12, k13, k14, k15, k16, k17, k18, k19, k20, k21, k22, k23, k24, k25, k26, k27, k28, k29, k30, k31⟩ := h
+          refine ⟨k0, k1, k2, k3, k4, k5, k6, k7, k8, k9, k10, k11, k12, ?_, k14, ?_, k16, ?_, ?_, k19, k20, ?_, k22, k23, ?_, k25, ?_, k27, k28, k29, ?_, k31⟩
           · simp only [K13] at k13 ⊢; grind
           · simp only [K15] at k15 ⊢; grind
           · simp only [K17] at k17 ⊢; grind
           · simp only [K18] at k18 ⊢; grind
           · simp only [K21] at k21 ⊢; grind
+          · simp only [K24] at k24 ⊢; grind
+          · simp only [K26] at k26 ⊢; grind
+          · intro _ hp
+            have := (k30 hcl hp).2.2.2.1
+            rw [this] at hgt; cases hgt
         · rename_i hurr
           simp only [Bool.not_eq_true] at hurr
           obtain ⟨hcl, how, hfwd, hpre, hup, hsr, hrs⟩ := timer_facts c ar aq s h (Or.inr hgt) hurr
@@ -259,8 +344,9 @@ theorem inv_globalFire (c : Cfg) (ar aq : Nat) (s : S) (h : Inv c ar aq s) : Inv
           have hupsome : s.up.isSome = true := h18.1
           simp only [hupsome, ite_true]
           have hled := resetUpstream_ledger c aq { s with global := false, globalExpired := true, urr := true } ⟨h.k10, h.k11, h.k14⟩
-          obtain ⟨k0, k1, k2, k3, k4, k5, k6, k7, k8, k9, k10, k11, k12, k13, k14, k15, k16, k17, k18, k19, k20, k21⟩ := h
-          refine ⟨?_, ?_, ?_, ?_, ?_, ?_, ?_, ?_, ?_, ?_, hled.1.1, hled.1.2.1, ?_, ?_, hled.1.2.2, ?_, ?_, ?_, ?_, ?_, ?_, ?_⟩
+          obtain ⟨k0, k1, k2, k3, k4, k5, k6, k7, k8, k9, k10, k11, k12, k13, k14, k15, k16, k17, k18, k19, k20, k21, k22, k23, k24, k25, k26, k27, k28, k29, k30, k31⟩ := h
+          refine ⟨?_, ?_, ?_, ?_, ?_, ?_, ?_, ?_, ?_, ?_, hled.1.1, hled.1.2.1, ?_, ?_, hled.1.2.2, ?_, ?_, ?_, ?_, ?_, ?_, ?_,
+            K22_resetUpstream c _ k22, fun _ _ => allDead_liveCount hled.2, ?_, ?_, ?_, ?_, ?_, ?_, ?_, ?_⟩
           · simpa [K0, upOnResetStream] using k0
           · simpa [K1, upOnResetStream] using k1
           · simpa [K2, upOnResetStream] using k2
@@ -285,6 +371,18 @@ theorem inv_globalFire (c : Cfg) (ar aq : Nat) (s : S) (h : Inv c ar aq s) : Inv
           · simpa [K19, upOnResetStream] using k19
           · intro hh; exact absurd hh (by simp [how])
           · intro hh; exact absurd hh (by simp [how])
+          · intro _ _ _ _; right; simp [upOnResetStream]
+          · simpa [K25, upOnResetStream] using k25
+          · intro _ hp
+            have := (k26 hcl (by simpa [upOnResetStream] using hp)).1
+            exact ⟨by simpa [upOnResetStream] using this, fun _ => by simp [upOnResetStream]⟩
+          · intro _ _ _; left; simp [upOnResetStream, hsr]
+          · intro _ _ _; left; simp [upOnResetStream]
+          · simpa [K29, upOnResetStream] using k29
+          · intro _ hp
+            have := (k30 hcl (by simpa [upOnResetStream] using hp)).2.2.2.1
+            rw [this] at hgt; cases hgt
+          · simpa [K31, upOnResetStream] using k31
 
 /-- every label of another goroutine preserves the invariant -/
 theorem inv_async (c : Cfg) (ar aq : Nat) (s : S) (l : Label) (hl : l ≠ .work) (h : Inv c ar aq s) :
